@@ -69,17 +69,8 @@ def positioned_nodes(tree):
 def classify_program(stored, raw):
     """Narrow signatures of the known findings, from the (minimised) failing program."""
     lines = raw.split("\n")
-<<<<<<< HEAD
-    if re.search(r"(?m)^\s*@.*\n\s*async\s+def\b", stored):
-        return SIG_ASYNC
-    if "_pos=" in stored:
-        return SIG_POSSTR
-=======
     if "_pos=" in stored:  # tested first: the decorated-async-def finding is repaired (d0d94f6), this one is open
         return SIG_POSSTR
-    if any(0x1C <= ord(ch) <= 0x1F for ch in raw):
-        return SIG_FS
->>>>>>> agent-flat
     for m in re.finditer(r"(?i)#\s*paroxython\s*:\s*(.*)", raw):
         for tok in m.group(1).split():
             if not tok.startswith(("-", "...", "…")) and tok.lstrip("+").split(":")[0].rstrip(".…") in PREREQ:
